@@ -333,7 +333,15 @@ func Path2ContainsPath1(path1, path2 Path64) bool {
 
 	bounds := getBounds(path1)
 	mp := bounds.MidPoint()
-	return PointInPolygon(mp, path2) != IsOutside
+	switch PointInPolygon(mp, path2) {
+	case IsInside:
+		return true
+	case IsOutside:
+		return false
+	}
+	// the mid-point lies on path2 as well (e.g. two polygons sharing an edge): fall back on the
+	// only decisive vertex seen, if any
+	return pip != IsOutside
 }
 
 func pointInOpPolygon(pt Point64, op *OutPt) PointInPolygonResult {
